@@ -262,7 +262,7 @@ def check_bytes_lt(ctx, P):
         revs = [x for x in walk(root) if x[0] == "call" and x[1].endswith("::rev")]
         ok = ok and len(revs) == 2 and all(x[2][0][0] == "call" and x[2][0][1].endswith("::iter") for x in revs)
     ctx.check(ok, "bytes-lt", "coverage", "zip(a.iter().rev(), b.iter().rev()): all bytes, least significant (last) first", "%s does not walk both arrays completely from the last byte to the first" % path, where=fn.where(), key="bytes-lt:coverage")
-    ev = ssa.Eval(P, fn, inline=lambda n: False)
+    ev = ssa.Eval(P, fn, inline=lambda n: False, auto=False)
     r = ev.run()
     # borrow variable: the loop-carried u8
     head = loops[0]["call"].bb if loops else None
